@@ -163,14 +163,19 @@ fn wild_arg(rng: &mut Rng, id: String, used: &mut Used, o: &WildOpts, pos_index:
         }
         // (likewise a long alias does not need a long)
         if (a.long.is_some() && rng.chance(1, 4)) || (a.long.is_none() && rng.chance(1, 12)) {
-            if let Some(l) = used.long(rng) {
-                a.aliases.push((l, rng.coin()));
+            // (one alias mostly; now and then a second and third one)
+            for _ in 0..*rng.pick(&[1usize, 1, 1, 2, 3]) {
+                if let Some(l) = used.long(rng) {
+                    a.aliases.push((l, rng.coin()));
+                }
             }
         }
         // (a short alias does not need a short: `--long` with `visible_short_alias('x')` is legal)
         if (a.short.is_some() && rng.chance(1, 6)) || (a.short.is_none() && rng.chance(1, 12)) {
-            if let Some(c) = used.short(rng) {
-                a.short_aliases.push((c, rng.coin()));
+            for _ in 0..*rng.pick(&[1usize, 1, 1, 2]) {
+                if let Some(c) = used.short(rng) {
+                    a.short_aliases.push((c, rng.coin()));
+                }
             }
         }
     }
@@ -466,23 +471,30 @@ pub fn wild_cmd(rng: &mut Rng, o: &WildOpts, depth_left: usize, name: String, in
             let mut s = wild_cmd(rng, o, depth_left - 1, nm, &down);
             s.settings.retain(|x| !matches!(x, Setting::NoBinaryName | Setting::Multicall));
             if rng.chance(1, 4) {
-                if let Some(al) = used.sub(rng) {
-                    s.aliases.push((al, rng.coin()));
+                for _ in 0..*rng.pick(&[1usize, 1, 2, 3, 4]) {
+                    if let Some(al) = used.sub(rng) {
+                        // (several *visible* aliases more often than not)
+                        s.aliases.push((al, rng.chance(2, 3)));
+                    }
                 }
             }
             if rng.chance(1, 4) {
                 s.short_flag = used.short(rng);
                 if s.short_flag.is_some() && rng.chance(1, 4) {
-                    if let Some(c2) = used.short(rng) {
-                        s.short_flag_aliases.push((c2, rng.coin()));
+                    for _ in 0..rng.range(1, 2) {
+                        if let Some(c2) = used.short(rng) {
+                            s.short_flag_aliases.push((c2, rng.coin()));
+                        }
                     }
                 }
             }
             if rng.chance(1, 4) {
                 s.long_flag = used.long(rng);
                 if s.long_flag.is_some() && rng.chance(1, 4) {
-                    if let Some(l2) = used.long(rng) {
-                        s.long_flag_aliases.push((l2, rng.coin()));
+                    for _ in 0..rng.range(1, 2) {
+                        if let Some(l2) = used.long(rng) {
+                            s.long_flag_aliases.push((l2, rng.coin()));
+                        }
                     }
                 }
             }
